@@ -276,7 +276,7 @@ def kind_of(cfg):
 
 
 def p1_job(run, name, module, scope, profile="dev", workers=8, timeout=1500, nontrivial_keys=("def.q", "def.f", "def.f2", "def.sq", "def.hold", "def.n"),
-           view_label=None, extra_env=None):
+           view_label=None, extra_env=None, scope2=None):
     """Pipeline P1: dump the implementation's behaviour tree for `scope`, model-check `module` against it."""
     wd = run.wd
     sp = os.path.join(wd, name + ".scope.json")
@@ -286,6 +286,13 @@ def p1_job(run, name, module, scope, profile="dev", workers=8, timeout=1500, non
     harness("table", sp, tb, profile)
     th = time.time() - t0
     env = {"SCOPE": sp, "TABLE": tb}
+    if scope2 is not None:
+        # second real run of the same behaviour tree over the transformed alphabet (relational properties)
+        sp2 = os.path.join(wd, name + ".scope2.json")
+        tb2 = os.path.join(wd, name + ".table2.ndjson")
+        json.dump(scope2, open(sp2, "w"))
+        harness("table", sp2, tb2, profile)
+        env["TABLE2"] = tb2
     if extra_env:
         env.update(extra_env)
     res = run_tlc(module, "MC.cfg", env, wd, workers=workers, timeout=timeout)
@@ -314,6 +321,12 @@ def p1_job(run, name, module, scope, profile="dev", workers=8, timeout=1500, non
         replay = {"kind": "p1", "module": module, "cfg": cfg, "inputs": hist, "unit": scope.get("unit", 1),
                   "float": scope.get("float", "f64"), "profile": profile, "env": extra_env or {},
                   "scope_rest": {k: v for k, v in scope.items() if k not in ("cfgs", "alphabet", "maxlen")}}
+        if scope2 is not None:
+            replay["scope2_rest"] = {k: v for k, v in scope2.items() if k not in ("cfgs", "alphabet", "maxlen")}
+            replay["cfg2"] = scope2["cfgs"][c - 1]
+            replay["inputs2"] = decode_hist(idx, ln, scope2["alphabet"])
+            replay["alphabet"] = scope["alphabet"]
+            replay["alphabet2"] = scope2["alphabet"]
         run.add_violation(label, clause, cfg, detail, replay)
     if len(run.samples) < 12 and scope["cfgs"]:
         run.samples.append({"job": name, "cfg": scope["cfgs"][0], "example_history": decode_hist(a ** scope["maxlen"] // 3, scope["maxlen"], scope["alphabet"]),
